@@ -312,7 +312,36 @@ def prove(goal, facts, budget=1500):
     return r
 
 
-def _prove(goal, facts, budget=1500):
+def _prove(goal, facts, budget=1500, _split=2):
+    if _prove1(goal, facts, budget):
+        return True
+    # case split on a min atom: min(x, y) = x when x <= y, = y when y <= x (both cases must go through)
+    if _split <= 0:
+        return False
+    rel, p = goal
+    mins = [a for a in p.atoms() if isinstance(a, tuple) and a and a[0] == "min"]
+    if not mins:
+        for _, f in facts:
+            mins += [a for a in f.atoms() if isinstance(a, tuple) and a and a[0] == "min"]
+    for a in mins[:2]:
+        x, y = a[1], a[2]
+        ok = True
+        for keep, other in ((x, y), (y, x)):
+            mp = {a: keep}
+            g2 = (rel, p.subst(mp))
+            f2 = [(r, f.subst(mp)) for r, f in facts] + [(">=", other - keep)]
+            # a case whose hypothesis contradicts the facts holds vacuously
+            if _prove1((">=", keep - other - 1), list(facts), min(budget, 300)):
+                continue
+            if not _prove(g2, f2, budget, _split - 1):
+                ok = False
+                break
+        if ok:
+            return True
+    return False
+
+
+def _prove1(goal, facts, budget=1500):
     rel, p = goal
     facts = list(facts)
     atoms = set(p.atoms())
